@@ -41,6 +41,12 @@ type keyProvider struct {
 }
 
 func (p *keyProvider) provideKey(token *jwt.Token) (interface{}, error) {
+	// a key declared for one algorithm ("alg" member of the JWK) must not
+	// verify tokens made with another algorithm
+	if alg := p.key.Algorithm; alg != "" && token.Method.Alg() != alg {
+		return nil, fmt.Errorf("token alg[%s] does not match key alg[%s]", token.Method.Alg(), alg)
+	}
+
 	return p.key.Key, nil
 }
 
